@@ -70,6 +70,26 @@ def regen_compu_limit(ctx):
 
 GENERATORS = list(globals().get("GENERATORS", [])) + [regen_compu_limit]
 
+
+# --- tie of kind (1) (task W20): Gen/CompuScaleApplies.lean is regenerated from CompuScale.applies (and Limit.value) of the current source
+# and proved equal to the hand-written Scale.applies (Proofs/CompuScaleAppliesGenEq.lean); its complies_to_lower / complies_to_upper are the
+# generated functions of Gen/CompuLimit.lean
+LEAN_TARGETS = LEAN_TARGETS + ["OdxVerif.Props.C07GenScale"]
+THEOREMS = THEOREMS + [P + t for t in ["gen_scaleApplies_eq", "C07_gen_scale_applies_tie", "C07_gen_scale_applies_ok_iff", "C07_gen_scale_applies"]]
+TRUSTED = TRUSTED + ["translator harness/extract/py2lean.py + primitives lean/OdxVerif/Model/PyRt.lean for CompuScale.applies and Limit.value "
+                     "(self.lower_limit / self.upper_limit = the fields lo / hi of the model's Scale; == on AtomicOdxType values = the model's Val.pyEq, "
+                     "None == None and value != None by Py.optEq)"]
+
+
+def regen_scale_applies(ctx):
+    """Gen/CompuScaleApplies.lean from the current source; Unsupported (source left the translator's subset) = broken obligation"""
+    import common
+    from extract import py2lean
+    py2lean.regenerate_scale_applies(common.REPO, common.VERIF)
+
+
+GENERATORS = list(globals().get("GENERATORS", [])) + [regen_scale_applies]
+
 TOL = Fr(1, 2**40)
 
 
